@@ -630,6 +630,7 @@ func stateRules(c *Ctx) {
 		nGo += goCapture(c, g, short1)
 		// ---- function literals that keep a loop variable declared once for the whole loop
 		loopVarCapture(c, g, short1)
+		loopVarAddress(c, g, short1)
 		// ---- a pooled object handed to a goroutine and put back by the starter
 		poolToGoroutine(c, g, short1)
 		// ---- a pooled list used with whatever an earlier call left in it
@@ -1388,6 +1389,138 @@ func loopVarCapture(c *Ctx, g *ssa.Function, short1 string) {
 					c.bad("STATE", "loopvar-capture:"+short1+"."+a.Comment, mc.Pos(), fmt.Sprintf("%s keeps, for use after the iteration, a function literal that reads the loop variable %s; that variable is a single one for the whole loop (the module's go directive predates per-iteration loop variables), so every literal kept sees the last element only", short1, a.Comment))
 					return
 				}
+			}
+		}
+	})
+}
+
+// loopVarAddress: the ADDRESS of a range variable is kept beyond the iteration (put into an interface, a
+// record or a list): with one variable for the whole loop, everything kept points at the last element.
+func loopVarAddress(c *Ctx, g *ssa.Function, short1 string) {
+	eachInstr(g, func(i ssa.Instruction) {
+		a, ok := i.(*ssa.Alloc)
+		if !ok || !a.Heap || a.Referrers() == nil {
+			return
+		}
+		// assigned from the range element inside a loop the variable is declared outside of
+		var loop map[*ssa.BasicBlock]bool
+		for _, r := range *a.Referrers() {
+			st, isSt := r.(*ssa.Store)
+			if !isSt || st.Addr != ssa.Value(a) {
+				continue
+			}
+			h := enclosingLoopHeader(st.Block())
+			if h == nil || naturalLoopOf(h)[a.Block()] {
+				continue
+			}
+			elem := false
+			switch v := st.Val.(type) {
+			case *ssa.Extract:
+				_, elem = v.Tuple.(*ssa.Next)
+			case *ssa.UnOp:
+				if ia, isIA := v.X.(*ssa.IndexAddr); isIA && v.Op.String() == "*" {
+					elem = isRangeIndex(ia.Index)
+				}
+			}
+			if elem {
+				loop = naturalLoopOf(h)
+			}
+		}
+		if loop == nil {
+			return
+		}
+		for _, r := range *a.Referrers() {
+			if !loop[r.Block()] {
+				continue
+			}
+			kept := false
+			switch x := r.(type) {
+			case *ssa.MakeInterface:
+				kept = x.X == ssa.Value(a)
+			case *ssa.Store:
+				kept = x.Val == ssa.Value(a)
+			case *ssa.Call:
+				if calleeName(x) == "builtin:append" {
+					for _, arg := range x.Call.Args {
+						if arg == ssa.Value(a) {
+							kept = true
+						}
+					}
+				}
+			case *ssa.MapUpdate:
+				kept = x.Value == ssa.Value(a)
+			case *ssa.Phi:
+				// p = &v on some iteration, p used once the loop is over
+				seenP := map[*ssa.Phi]bool{}
+				var after func(ph *ssa.Phi) bool
+				after = func(ph *ssa.Phi) bool {
+					if seenP[ph] || ph.Referrers() == nil {
+						return false
+					}
+					seenP[ph] = true
+					for _, pr := range *ph.Referrers() {
+						if _, isDbg := pr.(*ssa.DebugRef); isDbg {
+							continue
+						}
+						if p2, isPhi := pr.(*ssa.Phi); isPhi {
+							if after(p2) {
+								return true
+							}
+							continue
+						}
+						if !loop[pr.Block()] {
+							return true
+						}
+					}
+					return false
+				}
+				kept = after(x)
+			}
+			if kept {
+				// only when the loop can go round again after this point (taking the address and leaving the
+				// loop at once keeps the element that was wanted)
+				from := r.Block()
+				if ph, isPhi := r.(*ssa.Phi); isPhi {
+					for k, e := range ph.Edges {
+						if e == ssa.Value(a) {
+							from = ph.Block().Preds[k]
+						}
+					}
+				}
+				goesOn := false
+				var hdrs []*ssa.BasicBlock
+				for b := range loop {
+					for _, p := range b.Preds {
+						if b.Dominates(p) && loop[p] {
+							hdrs = append(hdrs, b)
+						}
+					}
+				}
+				seenB := map[*ssa.BasicBlock]bool{}
+				stack := []*ssa.BasicBlock{from}
+				first := true
+				for len(stack) > 0 && !goesOn {
+					b := stack[len(stack)-1]
+					stack = stack[:len(stack)-1]
+					if !first {
+						for _, h := range hdrs {
+							if b == h {
+								goesOn = true
+							}
+						}
+					}
+					first = false
+					if seenB[b] || !loop[b] {
+						continue
+					}
+					seenB[b] = true
+					stack = append(stack, b.Succs...)
+				}
+				if !goesOn {
+					continue
+				}
+				c.bad("STATE", "loopvar-capture:"+short1+"."+a.Comment, a.Pos(), fmt.Sprintf("%s keeps the address of the loop variable %s for use after the iteration; that variable is a single one for the whole loop (the module's go directive predates per-iteration loop variables), so everything kept points at the last element", short1, a.Comment))
+				return
 			}
 		}
 	})
